@@ -1,15 +1,29 @@
-"""C02 translator (fail-closed).  Reads from the tree under test
-  * FEMElementalAttribute.ELEMENT_TYPES (through translate/c04_cfg.py)
-  * whether the time-series branch of FrontISTRData.read_files accepts a
-    directory with exactly one result file:
-      no   -- `[obj._read_res(r) for r in str_data['res']]`  (with one file
-              `_read_files(..., separate=True)` hands back the bare StringSeries,
-              so the comprehension iterates over its lines)
-      yes  -- the iterable is a name bound just before by
-              `x = str_data['res']` followed by
-              `if isinstance(x, st.StringSeries): x = [x]`
-  * the header skip constants (3 / 11) and the split key 'TOTALTIME' of _split_series
-and emits coq/C02/gen/ResCfg.v."""
+"""C02 translator.  Reads from the tree under test, by MEANING (a small symbolic
+evaluator over the `ast`, class / module constants resolved, private helpers
+inlined one or two levels), four regions:
+
+  element_types    FEMElementalAttribute.ELEMENT_TYPES (any literal list / tuple,
+                   evaluated with ast.literal_eval)
+  split_consts     how many lines FrontISTRData._split_series skips before the
+                   body, as a function of "is there a TOTALTIME line": the
+                   function is *executed symbolically* up to the first slice
+                   `<series>[E:]` under the hypotheses 0 / 1 / 2 matches; the
+                   spelling (if/else, ternary, early default, class constant,
+                   helper method) does not matter
+  series_single_ok whether the time-series branch of FrontISTRData.read_files
+                   accepts a directory with exactly one result file (the bare
+                   StringSeries handed back by `_read_files(separate=True)` is
+                   wrapped in a list before it is iterated)
+  file_layer       StringSeries.read_file / read_files read the file on every
+                   call (translate/c04_cfg.py, exact bodies)
+
+and emits coq/C02/gen/ResCfg.v.
+
+Policy (BUILDERS_R5): a region the translator cannot read is NOT an alarm.  It
+is reported in `degraded` with the reason; the value of the registered tree
+(BASELINE below = what the translator produced on /repo 38049d8) is used as the
+hand model of that region and the harness widens the correspondence on the
+inputs that region decides.  Only a file that cannot be parsed at all raises."""
 import ast
 import hashlib
 import sys
@@ -19,70 +33,456 @@ sys.path.insert(0, str(Path(__file__).resolve().parent))
 import c04_cfg  # noqa
 from c04_cfg import TranslateError  # noqa
 
+BASELINE = {
+    'element_types': ['line', 'line2', 'spring', 'tri', 'tri2', 'quad', 'quad2', 'polygon', 'tet', 'tet2',
+                      'pyr', 'pyr2', 'prism', 'prism2', 'hex', 'hex2', 'hexprism', 'polyhedron', 'unknown'],
+    'series_single_ok': True,
+    'skip_old': 3,
+    'skip_new': 11,
+    'reads_file_every_call': True,
+}
+KEY = 'TOTALTIME'
+
 
 def _sha(s):
     return hashlib.sha256(s.encode()).hexdigest()
 
 
-def _fn(tree, cls, name):
+def _cls(tree, name):
     for c in tree.body:
-        if isinstance(c, ast.ClassDef) and c.name == cls:
-            for f in c.body:
-                if isinstance(f, ast.FunctionDef) and f.name == name:
-                    return f
+        if isinstance(c, ast.ClassDef) and c.name == name:
+            return c
+    raise TranslateError(f'class {name} not found')
+
+
+def _fn(tree, cls, name):
+    for f in _cls(tree, cls).body:
+        if isinstance(f, ast.FunctionDef) and f.name == name:
+            return f
     raise TranslateError(f'{cls}.{name} not found')
 
 
-def series_single_ok(fn):
-    comps = [n for n in ast.walk(fn) if isinstance(n, ast.ListComp)
-             and isinstance(n.elt, ast.Call) and ast.unparse(n.elt.func) == 'obj._read_res']
-    if len(comps) != 1:
-        raise TranslateError(f'expected one [obj._read_res(r) for r in ...], found {len(comps)}')
-    lc = comps[0]
-    if len(lc.generators) != 1 or lc.generators[0].ifs or ast.unparse(lc.elt) != \
-            f'obj._read_res({ast.unparse(lc.generators[0].target)})':
-        raise TranslateError('unrecognised _read_res comprehension')
-    it = ast.unparse(lc.generators[0].iter)
-    if it == "str_data['res']":
-        return False
-    if not isinstance(lc.generators[0].iter, ast.Name):
-        raise TranslateError(f'unrecognised iterable of the _read_res comprehension: {it}')
-    # look for  it = str_data['res']  /  if isinstance(it, st.StringSeries): it = [it]
-    src = [ast.unparse(s) for s in ast.walk(fn) if isinstance(s, (ast.Assign, ast.If))]
-    if f"{it} = str_data['res']" in src and \
-            f"if isinstance({it}, st.StringSeries):\n    {it} = [{it}]" in src:
-        return True
-    raise TranslateError(f'{it} is not bound by the recognised single-file wrapper')
-
-
-def split_consts(fn):
-    src = ast.unparse(fn)
-    consts = [n.value for n in ast.walk(fn) if isinstance(n, ast.Constant)]
-    if "find_match('TOTALTIME')" not in src or 3 not in consts or 11 not in consts \
-            or "content_start = 3" not in src or "content_start = 11" not in src:
-        raise TranslateError('_split_series: header skip (3 / 11 on TOTALTIME) not recognised')
-    return 3, 11
-
-
-def translate(repo):
-    et, s1 = c04_cfg.element_types(repo)
-    p = Path(repo) / 'femio' / 'formats' / 'fistr' / 'fistr.py'
+# ------------------------------------------------------------ element types
+def element_types(repo):
+    p = Path(repo) / 'femio' / 'fem_elemental_attribute.py'
     text = p.read_text()
     tree = ast.parse(text)
-    rf = _fn(tree, 'FrontISTRData', 'read_files')
-    sp = _fn(tree, 'FrontISTRData', '_split_series')
-    ok = series_single_ok(rf)
-    old, new = split_consts(sp)
-    s_fl = c04_cfg.file_layer(repo)
-    return {'element_types': et, 'series_single_ok': ok, 'skip_old': old, 'skip_new': new,
-            'reads_file_every_call': True}, {
-        'femio/util/string_parser.py:StringSeries.read_file+read_files': s_fl,
-        'femio/fem_elemental_attribute.py:ELEMENT_TYPES': s1,
-        'femio/formats/fistr/fistr.py:read_files': _sha(ast.get_source_segment(text, rf)),
-        'femio/formats/fistr/fistr.py:_split_series': _sha(ast.get_source_segment(text, sp)),
-        'femio/formats/fistr/fistr.py:_parse_res':
-            _sha(ast.get_source_segment(text, _fn(tree, 'FrontISTRData', '_parse_res'))),
-    }
+    for st in _cls(tree, 'FEMElementalAttribute').body:
+        tgt = None
+        if isinstance(st, ast.Assign) and len(st.targets) == 1:
+            tgt, val = st.targets[0], st.value
+        elif isinstance(st, ast.AnnAssign) and st.value is not None:
+            tgt, val = st.target, st.value
+        if isinstance(tgt, ast.Name) and tgt.id == 'ELEMENT_TYPES':
+            try:
+                v = ast.literal_eval(val)
+            except (ValueError, SyntaxError):
+                raise TranslateError('ELEMENT_TYPES is not a literal')
+            if not isinstance(v, (list, tuple)) or not all(isinstance(e, str) for e in v) or not v:
+                raise TranslateError('ELEMENT_TYPES is not a sequence of strings')
+            return list(v), _sha(ast.get_source_segment(text, st))
+    raise TranslateError('FEMElementalAttribute.ELEMENT_TYPES not found')
+
+
+# ------------------------------------------- symbolic evaluator (split consts)
+class _Unknown(Exception):
+    pass
+
+
+class _Matches:
+    """the value of <series>.find_match('TOTALTIME') under the hypothesis of h matches"""
+    def __init__(self, h):
+        self.h = h
+
+
+class _Series:
+    """the parameter holding the lines of the file"""
+
+
+class _Opaque:
+    """a value the evaluator does not follow (only an error when it decides something)"""
+
+
+class _Found(Exception):
+    """the first slice <series>[E:] was reached"""
+    def __init__(self, value):
+        self.value = value
+
+
+class _Return(Exception):
+    def __init__(self, value):
+        self.value = value
+
+
+class _Eval:
+    def __init__(self, tree, clsname, h):
+        self.tree, self.h, self.clsname = tree, h, clsname
+        self.cls = _cls(tree, clsname)
+        self.consts = {}
+        for scope in (tree.body, self.cls.body):
+            for st in scope:
+                if isinstance(st, ast.Assign) and len(st.targets) == 1 and isinstance(st.targets[0], ast.Name):
+                    self.consts[st.targets[0].id] = st.value
+                elif isinstance(st, ast.AnnAssign) and isinstance(st.target, ast.Name) and st.value is not None:
+                    self.consts[st.target.id] = st.value
+        self.methods = {f.name: f for f in self.cls.body if isinstance(f, ast.FunctionDef)}
+        self.depth = 0
+
+    def const(self, name):
+        if name not in self.consts:
+            raise _Unknown(f'name {name} is not bound')
+        try:
+            return ast.literal_eval(self.consts[name])
+        except (ValueError, SyntaxError):
+            return self.ev(self.consts[name], {})
+
+    def ev(self, n, env):
+        if isinstance(n, ast.Constant):
+            return n.value
+        if isinstance(n, ast.Name):
+            if n.id in env:
+                return env[n.id]
+            return self.const(n.id)
+        if isinstance(n, ast.Attribute):
+            if isinstance(n.value, ast.Name) and n.value.id in ('self', 'cls', self.clsname, 'type(self)') \
+                    and n.attr in self.consts and n.attr not in self.methods:
+                return self.const(n.attr)
+            if isinstance(n.value, ast.Call) and ast.unparse(n.value.func) == 'type' and n.attr in self.consts:
+                return self.const(n.attr)
+            return _Opaque()
+        if isinstance(n, ast.Subscript):
+            base = self.ev(n.value, env)
+            if isinstance(base, _Series) and isinstance(n.slice, ast.Slice) and n.slice.upper is None \
+                    and n.slice.step is None and n.slice.lower is not None:
+                v = self.ev(n.slice.lower, env)
+                if isinstance(v, bool) or not isinstance(v, int):
+                    raise _Unknown('the slice start of the series is not an integer the evaluator can compute')
+                raise _Found(v)
+            if isinstance(base, (dict, list, tuple)) and not isinstance(n.slice, ast.Slice):
+                k = self.ev(n.slice, env)
+                if isinstance(k, (_Opaque, _Matches, _Series)):
+                    raise _Unknown('subscript with a value that is not followed')
+                try:
+                    return base[k]
+                except (KeyError, IndexError, TypeError):
+                    raise _Unknown('subscript fails')
+            return _Opaque()
+        if isinstance(n, ast.Call):
+            f = n.func
+            # <series>.find_match(KEY)
+            if isinstance(f, ast.Attribute) and f.attr == 'find_match' and isinstance(self.ev(f.value, env), _Series):
+                args = [self.ev(a, env) for a in n.args]
+                if len(args) == 1 and args[0] == KEY and not n.keywords:
+                    return _Matches(self.h)
+                for a in list(n.args) + [k.value for k in n.keywords]:
+                    self.ev(a, env)
+                return _Opaque()
+            if isinstance(f, ast.Name) and f.id == 'len' and len(n.args) == 1 and not n.keywords:
+                v = self.ev(n.args[0], env)
+                if isinstance(v, _Matches):
+                    return v.h
+                if isinstance(v, (list, tuple, dict, str)):
+                    return len(v)
+                return _Opaque()
+            if isinstance(f, ast.Name) and f.id in ('int', 'bool') and len(n.args) == 1 and not n.keywords:
+                v = self.ev(n.args[0], env)
+                if isinstance(v, (int, bool)):
+                    return int(v) if f.id == 'int' else bool(v)
+                raise _Unknown(f'{f.id}() of a value that is not followed')
+            # private helper of the same class: inline (two levels)
+            if isinstance(f, ast.Attribute) and isinstance(f.value, ast.Name) \
+                    and f.value.id in ('self', 'cls', self.clsname) and f.attr in self.methods:
+                return self.call(self.methods[f.attr], n, env)
+            # anything else: evaluate the arguments (a slice of the series may sit there)
+            for a in list(n.args) + [k.value for k in n.keywords]:
+                self.ev(a, env)
+            if isinstance(f, ast.Attribute):
+                self.ev(f.value, env)
+            return _Opaque()
+        if isinstance(n, ast.UnaryOp):
+            v = self.ev(n.operand, env)
+            if isinstance(n.op, ast.Not):
+                return not self.truth(v)
+            if isinstance(n.op, ast.USub) and isinstance(v, int):
+                return -v
+            return _Opaque()
+        if isinstance(n, ast.BoolOp):
+            vals = [self.truth(self.ev(v, env)) for v in n.values]
+            return all(vals) if isinstance(n.op, ast.And) else any(vals)
+        if isinstance(n, ast.Compare):
+            left = self.ev(n.left, env)
+            res = True
+            for op, r in zip(n.ops, n.comparators):
+                right = self.ev(r, env)
+                if isinstance(left, (_Opaque, _Matches, _Series)) or isinstance(right, (_Opaque, _Matches, _Series)):
+                    raise _Unknown('comparison of a value that is not followed')
+                try:
+                    ok = {ast.Eq: lambda a, b: a == b, ast.NotEq: lambda a, b: a != b,
+                          ast.Lt: lambda a, b: a < b, ast.LtE: lambda a, b: a <= b,
+                          ast.Gt: lambda a, b: a > b, ast.GtE: lambda a, b: a >= b,
+                          ast.Is: lambda a, b: a is b, ast.IsNot: lambda a, b: a is not b,
+                          ast.In: lambda a, b: a in b, ast.NotIn: lambda a, b: a not in b}[type(op)](left, right)
+                except (KeyError, TypeError):
+                    raise _Unknown('unsupported comparison')
+                res = res and ok
+                left = right
+            return res
+        if isinstance(n, ast.BinOp):
+            a, b = self.ev(n.left, env), self.ev(n.right, env)
+            if isinstance(a, int) and isinstance(b, int):
+                if isinstance(n.op, ast.Add):
+                    return a + b
+                if isinstance(n.op, ast.Sub):
+                    return a - b
+                if isinstance(n.op, ast.Mult):
+                    return a * b
+            return _Opaque()
+        if isinstance(n, ast.IfExp):
+            return self.ev(n.body if self.truth(self.ev(n.test, env)) else n.orelse, env)
+        if isinstance(n, (ast.Tuple, ast.List)):
+            return [self.ev(e, env) for e in n.elts] if isinstance(n, ast.List) else tuple(self.ev(e, env) for e in n.elts)
+        if isinstance(n, ast.Dict):
+            try:
+                return {self.ev(k, env): self.ev(v, env) for k, v in zip(n.keys, n.values)}
+            except TypeError:
+                return _Opaque()
+        if isinstance(n, ast.NamedExpr) and isinstance(n.target, ast.Name):
+            env[n.target.id] = self.ev(n.value, env)
+            return env[n.target.id]
+        # comprehensions, lambdas, f-strings ...: not followed, but must not hide the slice
+        for sub in ast.walk(n):
+            if sub is not n and isinstance(sub, ast.Subscript) and isinstance(sub.slice, ast.Slice):
+                raise _Unknown(f'slice inside an expression that is not followed ({type(n).__name__})')
+        return _Opaque()
+
+    def truth(self, v):
+        if isinstance(v, (bool, int, str, list, tuple, dict)) or v is None:
+            return bool(v)
+        raise _Unknown('a decision depends on a value that is not followed')
+
+    def call(self, fn, call, env):
+        if self.depth >= 2:
+            raise _Unknown('helper nesting deeper than two levels')
+        params = [a.arg for a in fn.args.args]
+        if params and params[0] in ('self', 'cls'):
+            params = params[1:]
+        local = {}
+        vals = [self.ev(a, env) for a in call.args]
+        if len(vals) > len(params) or fn.args.vararg or fn.args.kwarg:
+            raise _Unknown(f'call of {fn.name} not understood')
+        for p, v in zip(params, vals):
+            local[p] = v
+        kwonly = [a.arg for a in fn.args.kwonlyargs]
+        for k in call.keywords:
+            if k.arg is None or (k.arg not in params and k.arg not in kwonly):
+                raise _Unknown(f'call of {fn.name} not understood')
+            local[k.arg] = self.ev(k.value, env)
+        defaults = dict(zip(params[len(params) - len(fn.args.defaults):], fn.args.defaults))
+        defaults.update({a: d for a, d in zip(kwonly, fn.args.kw_defaults) if d is not None})
+        for p in params + kwonly:
+            if p not in local:
+                if p not in defaults:
+                    raise _Unknown(f'call of {fn.name}: parameter {p} not bound')
+                local[p] = self.ev(defaults[p], {})
+        self.depth += 1
+        try:
+            self.block(fn.body, local)
+        except _Return as r:
+            return r.value
+        finally:
+            self.depth -= 1
+        return None
+
+    def block(self, body, env):
+        for st in body:
+            if isinstance(st, ast.Expr):
+                self.ev(st.value, env)
+            elif isinstance(st, ast.Assign):
+                v = self.ev(st.value, env)
+                for t in st.targets:
+                    self.bind(t, v, env)
+            elif isinstance(st, ast.AnnAssign):
+                if st.value is not None:
+                    self.bind(st.target, self.ev(st.value, env), env)
+            elif isinstance(st, ast.AugAssign):
+                cur = self.ev(st.target, env)
+                v = self.ev(st.value, env)
+                if isinstance(cur, int) and isinstance(v, int) and isinstance(st.op, (ast.Add, ast.Sub)):
+                    self.bind(st.target, cur + v if isinstance(st.op, ast.Add) else cur - v, env)
+                else:
+                    self.bind(st.target, _Opaque(), env)
+            elif isinstance(st, ast.If):
+                self.block(st.body if self.truth(self.ev(st.test, env)) else st.orelse, env)
+            elif isinstance(st, ast.Return):
+                raise _Return(self.ev(st.value, env) if st.value is not None else None)
+            elif isinstance(st, ast.Pass):
+                pass
+            elif isinstance(st, ast.Assert):
+                self.ev(st.test, env)
+            else:
+                raise _Unknown(f'statement {type(st).__name__} before the series is sliced')
+
+    def bind(self, target, v, env):
+        if isinstance(target, ast.Name):
+            env[target.id] = v
+        elif isinstance(target, (ast.Tuple, ast.List)) and isinstance(v, (tuple, list)) \
+                and len(v) == len(target.elts):
+            for t, x in zip(target.elts, v):
+                self.bind(t, x, env)
+        elif isinstance(target, (ast.Tuple, ast.List)):
+            for t in target.elts:
+                self.bind(t, _Opaque(), env)
+        else:
+            pass        # attribute / subscript stores do not decide the slice start
+
+
+def split_consts(tree):
+    """(skip without TOTALTIME line, skip with one): _split_series executed symbolically"""
+    fn = _fn(tree, 'FrontISTRData', '_split_series')
+    params = [a.arg for a in fn.args.args]
+    if len(params) < 2:
+        raise TranslateError('_split_series: no series parameter')
+    out = []
+    for h in (0, 1, 2):
+        e = _Eval(tree, 'FrontISTRData', h)
+        try:
+            e.block(fn.body, {params[1]: _Series(), params[0]: _Opaque()})
+        except _Found as f:
+            out.append(f.value)
+            continue
+        except _Return:
+            raise TranslateError(f'_split_series returns before the series is sliced ({h} {KEY} lines)')
+        except _Unknown as u:
+            raise TranslateError(f'_split_series ({h} {KEY} lines): {u}')
+        except RecursionError:
+            raise TranslateError('_split_series: recursion')
+        raise TranslateError(f'_split_series: no slice <series>[E:] reached ({h} {KEY} lines)')
+    if out[1] != out[2]:
+        raise TranslateError(f'_split_series: skip depends on the number of {KEY} lines: {out}')
+    if not all(isinstance(v, int) and 0 <= v < 1000 for v in out):
+        raise TranslateError(f'_split_series: skip constants out of range: {out}')
+    return out[0], out[1]
+
+
+# ------------------------------------------------- single-file time series
+def _is_series_class(n):
+    return ast.unparse(n) in ('st.StringSeries', 'StringSeries')
+
+
+def series_single_ok(fn):
+    """True  -- the iterable of the `_read_res` loop / comprehension is a name X with
+                X = str_data['res'] and a recognised wrapper of a bare StringSeries
+                (if isinstance(X, StringSeries): X = [X]   /   if not isinstance(X, (list, ...)): X = [X]
+                 /   X = [Y] if isinstance(Y, StringSeries) else Y);
+       False -- the iterable is str_data['res'] itself, or a name bound to it without any wrapper."""
+    its = []
+    for n in ast.walk(fn):
+        gens = []
+        if isinstance(n, (ast.ListComp, ast.GeneratorExp)):
+            if any(isinstance(c, ast.Call) and isinstance(c.func, ast.Attribute) and c.func.attr == '_read_res'
+                   for c in ast.walk(n.elt)):
+                gens = n.generators
+        elif isinstance(n, ast.For):
+            if any(isinstance(c, ast.Call) and isinstance(c.func, ast.Attribute) and c.func.attr == '_read_res'
+                   for b in n.body for c in ast.walk(b)):
+                gens = [n]
+        for g in gens:
+            tgt = ast.unparse(g.target)
+            calls = [c for c in ast.walk(n) if isinstance(c, ast.Call) and isinstance(c.func, ast.Attribute)
+                     and c.func.attr == '_read_res']
+            if len(gens) != 1 or getattr(g, 'ifs', None) or \
+                    not all(len(c.args) == 1 and not c.keywords and ast.unparse(c.args[0]) == tgt for c in calls):
+                raise TranslateError('_read_res is not applied to the loop variable itself')
+            its.append(g.iter)
+    if len(its) != 1:
+        raise TranslateError(f'expected one loop of _read_res over the result files, found {len(its)}')
+    it = its[0]
+
+    def is_res(n):
+        return isinstance(n, ast.Subscript) and ast.unparse(n) in ("str_data['res']", 'str_data["res"]')
+    if is_res(it):
+        return False
+    if not isinstance(it, ast.Name):
+        raise TranslateError(f'unrecognised iterable of the _read_res loop: {ast.unparse(it)}')
+    x = it.id
+    binds = [s for s in ast.walk(fn) if isinstance(s, ast.Assign) and len(s.targets) == 1
+             and isinstance(s.targets[0], ast.Name) and s.targets[0].id == x]
+    src_names = {x}
+    wrapped = False
+    from_res = False
+    for s in binds:
+        v = s.value
+        if is_res(v):
+            from_res = True
+        elif isinstance(v, ast.IfExp) and isinstance(v.test, ast.Call) and ast.unparse(v.test.func) == 'isinstance' \
+                and len(v.test.args) == 2 and _is_series_class(v.test.args[1]) \
+                and isinstance(v.body, ast.List) and len(v.body.elts) == 1 \
+                and ast.unparse(v.body.elts[0]) == ast.unparse(v.test.args[0]) == ast.unparse(v.orelse) \
+                and (is_res(v.orelse) or ast.unparse(v.orelse) in src_names):
+            from_res = from_res or is_res(v.orelse)
+            wrapped = True
+        elif isinstance(v, ast.List) and len(v.elts) == 1 and isinstance(v.elts[0], ast.Name) and v.elts[0].id == x:
+            pass        # the wrapping assignment itself; its guard is looked at below
+        else:
+            raise TranslateError(f'{x} is bound by an expression that is not recognised: {ast.unparse(v)[:60]}')
+    for s in ast.walk(fn):
+        if isinstance(s, ast.If) and not s.orelse and len(s.body) == 1 and isinstance(s.body[0], ast.Assign) \
+                and ast.unparse(s.body[0]) == f'{x} = [{x}]':
+            t = s.test
+            if isinstance(t, ast.Call) and ast.unparse(t.func) == 'isinstance' and len(t.args) == 2 \
+                    and ast.unparse(t.args[0]) == x and _is_series_class(t.args[1]):
+                wrapped = True
+            elif isinstance(t, ast.UnaryOp) and isinstance(t.op, ast.Not) and isinstance(t.operand, ast.Call) \
+                    and ast.unparse(t.operand.func) == 'isinstance' and len(t.operand.args) == 2 \
+                    and ast.unparse(t.operand.args[0]) == x \
+                    and ast.unparse(t.operand.args[1]) in ('list', '(list, tuple)', 'st.ListStringSeries',
+                                                           'ListStringSeries', '(list, st.ListStringSeries)'):
+                wrapped = True
+            else:
+                raise TranslateError(f'guard of `{x} = [{x}]` not recognised: {ast.unparse(t)[:60]}')
+    if not from_res:
+        raise TranslateError(f"{x} is not bound to str_data['res']")
+    return wrapped
+
+
+# ------------------------------------------------------------------- driver
+def translate(repo):
+    """-> (cfg, consumed source hashes, degraded {region: reason})"""
+    degraded = {}
+    cfg = dict(BASELINE)
+    consumed = {}
+    p = Path(repo) / 'femio' / 'formats' / 'fistr' / 'fistr.py'
+    text = p.read_text()
+    tree = ast.parse(text)          # SyntaxError / OSError: the tree cannot run at all
+
+    def region(name, f):
+        try:
+            return f()
+        except TranslateError as e:
+            degraded[name] = str(e)
+        except (RecursionError, AttributeError, IndexError, KeyError, TypeError, ValueError) as e:
+            degraded[name] = f'translator error {type(e).__name__}: {e}'
+        return None
+
+    r = region('element_types', lambda: element_types(repo))
+    if r:
+        cfg['element_types'], consumed['femio/fem_elemental_attribute.py:ELEMENT_TYPES'] = r
+    r = region('split_consts', lambda: split_consts(tree))
+    if r:
+        cfg['skip_old'], cfg['skip_new'] = r
+    r = region('series_single_ok', lambda: series_single_ok(_fn(tree, 'FrontISTRData', 'read_files')))
+    if r is not None:
+        cfg['series_single_ok'] = r
+    r = region('file_layer', lambda: c04_cfg.file_layer(repo))
+    if r:
+        consumed['femio/util/string_parser.py:StringSeries.read_file+read_files'] = r
+    for nm in ('read_files', '_split_series', '_parse_res'):
+        try:
+            consumed[f'femio/formats/fistr/fistr.py:{nm}'] = \
+                _sha(ast.get_source_segment(text, _fn(tree, 'FrontISTRData', nm)))
+        except TranslateError as e:
+            degraded.setdefault('split_consts' if nm != 'read_files' else 'series_single_ok', str(e))
+    return cfg, consumed, degraded
 
 
 def emit(cfg):
@@ -100,5 +500,6 @@ def emit(cfg):
 
 
 if __name__ == '__main__':
-    c, s = translate(sys.argv[1] if len(sys.argv) > 1 else '/repo')
+    c, s, d = translate(sys.argv[1] if len(sys.argv) > 1 else '/repo')
     print(c)
+    print('degraded:', d)
